@@ -319,6 +319,9 @@ func runC08(rc *RunCtx) {
 			if bits.OnesCount32(mask) > 3 && !rc.Thorough() {
 				nv = 1
 			}
+			if bits.OnesCount32(mask) <= 1 {
+				nv = rc.Pick(10, 20) // singletons get every field-value variant
+			}
 			for v := 0; v < nv; v++ {
 				var amt *big.Int
 				switch {
